@@ -36,6 +36,7 @@ NAMES = ["x[0]", "x[1]", "x[2]", "x[3]", "x[4]", "y[0]", "y[1]", "y[2]"]
 Q3 = [[2.0, -0.5, 0.25], [1.0, 1.5, 0.0], [-0.75, 0.5, 3.0]]
 
 
+QUICK = [False]
 NV = [5]  # number of distinct x-variables the chain terms cycle through
 
 
@@ -76,6 +77,8 @@ def base_term(kind, i):
         return ["const", 0.5 + (i % 3), "float"] if i % 4 else v
     if kind == "par":
         return ["bin", "*", ["par", "p"], v]
+    if kind == "par-offset":
+        return ["bin", "-", ["bin", "*", v, v], ["par", "p"]] if i % 2 else ["bin", "*", ["bin", "+", ["par", "p"], ["raw", 0.5, "float"]], v]
     if kind == "vsum":
         return ["sum", _y] if i % 2 else ["sum", ["slice", _x, i % 3, (i % 3) + 2, None]]
     if kind == "dot":
@@ -97,7 +100,7 @@ def base_term(kind, i):
     raise KeyError(kind)
 
 
-KINDS = [f"fn:{f}" for f in R.FUNCS] + ["neg", "var", "lin", "pow2", "pow3", "const", "par", "vsum", "dot", "lc", "norm2", "norm1", "qf",
+KINDS = [f"fn:{f}" for f in R.FUNCS] + ["neg", "var", "lin", "pow2", "pow3", "const", "par", "par-offset", "vsum", "dot", "lc", "norm2", "norm1", "qf",
                                        "vpowsum", "vunarysum", "vexprsum"]
 OPS = ["+", "-", "*", "/"]
 T = 400
@@ -115,10 +118,10 @@ def info(tier):
         "level": LEVEL,
         "rule": "term kinds (%d: every unary function, every vector node kind, parameters, constants, powers) x op {+,-,*,/} x "
         "n in {399,400,401,450,900} (value/gradient/compile/solve) and {5000,20000} (gradient, degree, variables; +,-) x builds "
-        "{left-deep, balanced, vectorised}; all four switch thresholds lowered to 2 on random grammar recipes; compared with the "
+        "{left-deep, left-deep after degree queries, left-deep with a fresh Variable object per mention, balanced, vectorised}; parameter kinds re-observed after Parameter.set();  all four switch thresholds lowered to 2 on random grammar recipes; compared with the "
         "iteratively folded reference and pairwise; distinct = (kind, op, n, build) cells + canonical random recipes" % len(KINDS),
         "required_cells": [f"kind:{k}" for k in KINDS] + [f"op:{o}" for o in OPS] + [f"n:{n}" for n in (60, 120, 399, 400, 401, 450, 900, 5000, 20000)]
-        + ["build:left-deep", "build:balanced", "build:vectorised", "obs:variables", "obs:degree", "obs:gradient", "obs:evaluate",
+        + ["build:left-deep", "build:left-deep-fresh-leaves", "build:balanced", "build:vectorised", "obs:after-set", "obs:variables", "obs:degree", "obs:gradient", "obs:evaluate",
            "obs:compiled-value", "obs:compiled-gradient", "obs:solve", "thresholds-lowered"],
         "assumptions": ["reference folds the term list iteratively (no recursion limit involved)",
                         "chains draw their terms from <= 8 variables (depth is what matters)"],
@@ -210,11 +213,13 @@ def run_chain(rec, rng, kind, op, n, heavy):
     mag = max(jalg.t.mag, jalg.t.dmag)
 
     results = {}
-    for build in ("left-deep", "left-deep-prequeried", "balanced"):
+    for build in ("left-deep", "left-deep-prequeried", "left-deep-fresh-leaves", "balanced"):
         res = {}
         results[build] = res
+        if build == "left-deep-fresh-leaves" and (n > 900 or (QUICK[0] and op in ("*", "/") and n > 130 and (KINDS.index(kind) + n) % 3)):
+            continue
         try:
-            b = B.Builder(DECLS)
+            b = B.Builder(DECLS, fresh_leaves=build.endswith("fresh-leaves"))
             e = build_left(b, terms, op, prequery=build.endswith("prequeried")) if build.startswith("left-deep") else build_balanced(b, terms, op)
         except Exception as ex:
             bad(f"build-raises:{type(ex).__name__}", build, error=repr(ex)[:200])
@@ -294,6 +299,25 @@ def run_chain(rec, rng, kind, op, n, heavy):
                     if not close(garr[j], float(jref.g[j]), 1e-7, mag)[0]:
                         bad("compiled-gradient-wrong", build, wrt=V[j], got=float(garr[j]), want=float(jref.g[j]))
                         break
+        if kind.startswith("par") and fn is not None and gfn is not None:
+            # the parameter is updated after compilation: deep and balanced callables must both follow (same objects, no rebuild)
+            newp = {"p": -0.75}
+            b.params["p"].set(newp["p"])
+            jalg2 = R.JetAlg(1, V, pt, newp)
+            with np.errstate(all="ignore"):
+                jref2 = fold_ref(jalg2, R.Interp(D, jalg2), terms, op)
+            if math.isfinite(float(jref2.v)) and jalg2.t.regular(1e-3, 1e12):
+                mag2 = max(jalg2.t.mag, jalg2.t.dmag)
+                rec.cmp(1, "obs:after-set")
+                v2 = attempt("compiled-call-after-set", lambda: float(np.asarray(fn(x)).reshape(-1)[0]))
+                if v2 is not None and not close(v2, float(jref2.v), 1e-9, mag2)[0]:
+                    bad("compiled-value-ignores-parameter-update", build, got=v2, want=float(jref2.v))
+                g2 = attempt("compiled-gradient-call-after-set", lambda: np.asarray(gfn(x), dtype=float).reshape(-1))
+                if g2 is not None and not all(close(g2[j], float(jref2.g[j]), 1e-7, mag2)[0] for j in range(len(V))):
+                    bad("compiled-gradient-ignores-parameter-update", build, got=g2.tolist(), want=[float(w) for w in jref2.g])
+                v3 = attempt("evaluate-after-set", lambda: float(np.asarray(e.evaluate(dict(pt))).reshape(-1)[0]))
+                if v3 is not None and not close(v3, float(jref2.v), 1e-9, mag2)[0]:
+                    bad("evaluate-ignores-parameter-update", build, got=v3, want=float(jref2.v))
         if op in ("+", "-"):
             jfn = attempt("compile-jacobian", lambda: AD.compile_jacobian([e], Vobjs))
             if jfn is not None:
@@ -477,13 +501,14 @@ def lowered_thresholds(rec, rng, n_cases):
 
 def run(ctx, rec):
     rng = ctx.rng
+    QUICK[0] = ctx.tier == "quick"
     sys.setrecursionlimit(1000)  # the library's own budget, measured from a shallow stack
     i = 0
     for ki, kind in enumerate(KINDS):
         for oi, op in enumerate(OPS):
             if op in ("+", "-"):
                 sizes_heavy = [T - 1, T, T + 1, 450, 900]
-            elif kind.startswith("fn:") or kind in ("neg", "var", "lin", "pow2", "pow3", "const", "par"):
+            elif kind.startswith("fn:") or kind in ("neg", "var", "lin", "pow2", "pow3", "const", "par", "par-offset"):
                 sizes_heavy = [120, T - 1, T, T + 1, 450, 900]
             else:
                 # the derivative of a product of vector nodes is O(n^2) to build: these chains stay short and the
